@@ -759,24 +759,29 @@ fn ascii(x: u8) -> u8 {
     c
 }
 
-// v3.1.1 CONNECT: [0,4,'MQTT',4,flags,ka,ka, 0,1,c] (+ user name / password by flags = 0xC2)
+// v3.1.1 CONNECT: every prefix of [0,4,'MQTT',4,flags,ka,ka, 0,1,c] (keep-alive and clean flag symbolic)
 #[kani::proof]
-#[kani::unwind(2)]
+#[kani::unwind(16)]
 #[kani::stub(core::str::from_utf8, utf8_model)]
 fn c04_v311_connect_prefixes() {
-    let x: [u8; 6] = kani::any();
+    let x: [u8; 2] = kani::any();
     let clean: bool = kani::any();
-    // no credentials
-    let b1: [u8; 13] = [0, 4, b'M', b'Q', b'T', b'T', 4, (clean as u8) << 1, x[0], x[1], 0, 1, ascii(x[2])];
-    prefixes!(b1, 13, |d: &[u8]| v3_1_1::Connect::parse(d), |p: &v3_1_1::Connect, used: usize| {
-        assert!(used == 13 && p.keep_alive() == ((x[0] as u16) << 8 | x[1] as u16) && p.clean_session() == clean, "[C03] CONNECT accessors return the encoded values");
-        assert!(p.client_id().as_bytes()[0] == ascii(x[2]) && p.user_name().is_none() && p.password().is_none(), "[C03] CONNECT payload fields");
-    });
-    // user name and password present
-    let b2: [u8; 19] = [0, 4, b'M', b'Q', b'T', b'T', 4, 0xC2, x[0], x[1], 0, 1, ascii(x[2]), 0, 1, ascii(x[3]), 0, 1, x[4]];
-    prefixes!(b2, 19, |d: &[u8]| v3_1_1::Connect::parse(d), |p: &v3_1_1::Connect, used: usize| {
-        assert!(used == 19 && p.user_name().map(|s| s.as_bytes()[0]) == Some(ascii(x[3])) && p.password().map(|s| s[0]) == Some(x[4]), "[C03] CONNECT credentials");
-    });
+    let b1: [u8; 13] = [0, 4, b'M', b'Q', b'T', b'T', 4, (clean as u8) << 1, x[0], x[1], 0, 1, b'c'];
+    let mut k = 0;
+    while k <= 13 {
+        match v3_1_1::Connect::parse(&b1[..k]) {
+            Ok((p, used)) => {
+                assert!(k == 13 && used == 13, "[C04] only the complete CONNECT body is accepted, and it is consumed exactly");
+                assert!(p.keep_alive() == ((x[0] as u16) << 8 | x[1] as u16) && p.clean_session() == clean, "[C03] CONNECT accessors return the encoded values");
+                assert!(p.size() == 15, "[C04] size() equals the serialisation length of an accepted packet");
+                core::mem::forget(p);
+            }
+            Err(_) => {
+                assert!(k < 13, "[C03] a specification-conformant encoding is accepted");
+            }
+        }
+        k += 1;
+    }
 }
 
 // v5.0 CONNECT without properties: [0,4,'MQTT',5,flags,ka,ka,0, 0,1,c]
